@@ -17,7 +17,7 @@ SCOPE = ('partially_occluded and raytracing on worlds of token cells whose opaci
          'monotonicity (clearing a visible opaque cell hides nothing); stochastic_raytracing with symbolic draws only shows what the '
          'deterministic ray-traced view shows and always shows cells every ray reaches lit')
 BOUNDS = {
-    'quick': dict(worlds='2x2 with every view area of the box (ymin in [-2,0], ymax 0..1, xmin,xmax in [-2,2]); 3x2, 3x4 with the selected areas (views of at most 9 cells on 3x4)',
+    'quick': dict(earlier_calls='raytracing observation on 3x2 / 3x4 worlds after an observation of the same world with absolute_counts/threshold in (False, 0.75), (True, 0), (True, 3)', worlds='2x2 with every view area of the box (ymin in [-2,0], ymax 0..1, xmin,xmax in [-2,2]); 3x2, 3x4 with the selected areas (views of at most 9 cells on 3x4)',
                   replaced_cell='every world cell (hidden in view, or outside the view) by symbolic choice', opacity='symbolic per cell (all 2^n patterns)',
                   stochastic='views of at most 6 cells, every draw a symbolic real in [0,1) (0.0 included)', large_views='7x7 (shipped), 9x9, 11x11 views, agent bottom centre, 3 symbolic occluders next to the agent'),
     'thorough': dict(worlds='up to 2x3 every area; 3x2, 3x4, 4x4 with selected areas up to 5x5', replaced_cell='every', opacity='symbolic', stochastic='views up to 9 cells'),
